@@ -71,6 +71,24 @@ func evalQ(env envs.Environment, res contactql.Resolver, c *flows.Contact, text 
 	return contactql.EvaluateQuery(env, q, c), "", ""
 }
 
+// evalQX parses the query in one environment and evaluates it in another (a group query is parsed when the assets are
+// loaded and evaluated in the environment of whichever session comes along): what counts is the evaluating environment.
+// A text the parsing environment rejects is parsed in the evaluating one instead.
+func evalQX(penv, env envs.Environment, res contactql.Resolver, c *flows.Contact, text string) (result bool, perr string, pan string) {
+	defer func() {
+		if r := recover(); r != nil {
+			pan = fmt.Sprintf("%v\n%s", r, debug.Stack())
+		}
+	}()
+	q, err := contactql.ParseQuery(penv, text, res)
+	if err != nil {
+		if q, err = contactql.ParseQuery(env, text, res); err != nil {
+			return false, err.Error(), ""
+		}
+	}
+	return contactql.EvaluateQuery(env, q, c), "", ""
+}
+
 func formatEnvDate(env envs.Environment, y int, m time.Month, d int) string {
 	switch env.DateFormat() {
 	case envs.DateFormatDayMonthYear:
@@ -208,12 +226,21 @@ func c15Eval(args []string) error {
 				offsets := []time.Duration{0, -time.Second, time.Second, 24*time.Hour - time.Second, 24 * time.Hour, 24*time.Hour + time.Second, -24 * time.Hour, 12 * time.Hour, -time.Nanosecond * 1000, 36 * time.Hour, -400 * 24 * time.Hour}
 				for oi, off := range offsets {
 					for _, prop := range []string{"joined", "created_on", "last_seen_on"} {
-						for _, absent := range []bool{false, true} {
+						for _, variant := range []int{0, 1, 2} {
+							// variants 1 and 2: the same contact and the same query texts, but every query was parsed in another
+							// environment (another zone and another date format) than the one it is evaluated in
+							absent := variant == 1
+							cross := variant == 2
 							if absent && (prop == "created_on" || oi > 0) {
 								continue
 							}
 							if !mine() {
 								continue
+							}
+							penv := env
+							if cross {
+								pl, _ := time.LoadLocation(zones[(zi+2)%len(zones)])
+								penv = envs.NewBuilder().WithTimezone(pl).WithDateFormat(formats[(fi+1+oi%2)%len(formats)]).Build()
 							}
 							inst := qdate.Add(off)
 							// the stored value as an instant in UTC or in another zone: only the instant matters
@@ -240,13 +267,17 @@ func c15Eval(args []string) error {
 							if err != nil {
 								return err
 							}
-							line := &C15Line{Src: fmt.Sprintf("date/%s/%s/%s/%s/%v", zn, df, qv, prop, off), Kind: "cmp", Prop: prop, QVal: qv, CVal: stored, Zone: zn,
+							fam := "date"
+							if cross {
+								fam = "date-parsed-elsewhere"
+							}
+							line := &C15Line{Src: fmt.Sprintf("%s/%s/%s/%s/%s/%v", fam, zn, df, qv, prop, off), Kind: "cmp", Prop: prop, QVal: qv, CVal: stored, Zone: zn,
 								Present: !absent, Single: true, Ordered: true, EmptyOK: prop != "created_on", IsDate: true, R: map[string]bool{}}
 							line.CDay, line.QDay = civilDay(inst.In(loc)), civilDay(qdate)
 							ok := true
 							for name, op := range map[string]string{"lt": "<", "le": "<=", "eq": "=", "ge": ">=", "gt": ">", "ne": "!="} {
 								q := fmt.Sprintf("%s %s %s", prop, op, qv)
-								r, perr, pan := evalQ(env, res, c, q)
+								r, perr, pan := evalQX(penv, env, res, c, q)
 								line.Queries = append(line.Queries, q)
 								if pan != "" {
 									line.Panic = pan
@@ -258,8 +289,8 @@ func c15Eval(args []string) error {
 								line.R[name] = r
 							}
 							if line.EmptyOK {
-								line.R["eq_empty"], _, _ = evalQ(env, res, c, prop+` = ""`)
-								line.R["ne_empty"], _, _ = evalQ(env, res, c, prop+` != ""`)
+								line.R["eq_empty"], _, _ = evalQX(penv, env, res, c, prop+` = ""`)
+								line.R["ne_empty"], _, _ = evalQX(penv, env, res, c, prop+` != ""`)
 							} else {
 								line.R["eq_empty"], line.R["ne_empty"] = false, false
 							}
